@@ -7,9 +7,13 @@
 (*                                                                                                *)
 (* An object is [live, p, q, r]; ids index small per-class text tables of the harness, 0 = NULL:  *)
 (*   objpair: p = key, q = value                    tok: p = src, q = sep, r = 1 iff evaluated    *)
-(*   url:     p = text, q = host set by the setter (0 = as parsed, 3 = cleared: set to NULL)      *)
+(*   url:     p = text, q = host set by the setter (0 = as parsed, 9 = cleared: set to NULL)      *)
 (*   regexp:  p = pattern, q = flags (0 none, 1 = "i")                                             *)
 (* Texts are chosen so that id order = text order (comp is stated to follow the text / the key).  *)
+(* url and regexp ARE strs (subclasses): the program may hand them to the str class's own mutators *)
+(* (parent entry points); their text id 1 is a text of blanks only, which trim empties (p = 0).     *)
+(* Whatever entry point is used, the object stays an object of ITS class (the harness checks the    *)
+(* class pointer, type() and the class name of every live slot after every step).                   *)
 EXTENDS Integers, Sequences, TLC, Json
 CONSTANTS Cls, T, Obs(_, _, _, _)
 VARIABLES A, B
@@ -40,7 +44,7 @@ OpSetP(t) == /\ A.live /\ Cls \in {"objpair", "tok"}
 OpSetQ(t) == /\ A.live /\ Cls \in {"objpair", "tok", "url"}
              /\ Step("set_q", <<t>>, TRUE, [A EXCEPT !.q = t], B)
 \* clearing a property: the setter is handed NULL, deletes what it held and stores NULL
-Cleared == IF IsUrl THEN 3 ELSE 0
+Cleared == IF IsUrl THEN 9 ELSE 0
 OpClearQ  == /\ A.live /\ Cls \in {"objpair", "tok", "url"} /\ (IsUrl => A.p # 0)
              /\ Step("clear_q", <<>>, TRUE, [A EXCEPT !.q = Cleared], B)
 OpBClearQ == /\ B.live /\ Cls \in {"objpair", "tok", "url"} /\ (IsUrl => B.p # 0)
@@ -53,9 +57,21 @@ OpGetQ == /\ A.live /\ Step("get_q", <<>>, A.q, A, B)
 OpEval == /\ A.live /\ IsTok
           /\ IF A.p = 0 THEN Step("eval", <<>>, FALSE, A, B)
                         ELSE Step("eval", <<>>, TRUE, [A EXCEPT !.r = 1], B)
-(* regexp: matching; the truth table of the harness's patterns 1="a", 2="b+" on subjects 1="a" 2="bb" 3="A" 4="c" *)
-Match(pat, fl, s) == \/ (pat = 1 /\ s = 1) \/ (pat = 1 /\ s = 3 /\ fl = 1) \/ (pat = 2 /\ s = 2)
+(* regexp: matching; the truth table of the harness's patterns 1="  ", 2="a", 3="b+" on subjects 1="a" 2="bb" 3="A" 4="c" *)
+Match(pat, fl, s) == \/ (pat = 2 /\ s = 1) \/ (pat = 2 /\ s = 3 /\ fl = 1) \/ (pat = 3 /\ s = 2)
 OpMatches(s) == /\ A.live /\ IsRe /\ A.p # 0 /\ Step("matches", <<s>>, Match(A.p, A.q, s), A, B)
+
+(* parent entry points: the str class's mutators applied to a url / regexp *)
+IsStrSub == Cls \in {"url", "regexp"}
+Trimmed(p) == IF p = 1 THEN 0 ELSE p            \* id 1 is all blanks; the other texts have none at their ends
+\* ("host cleared" is not observable on a url without text: it reads as "as parsed")
+AfterTrim(o) == [o EXCEPT !.p = Trimmed(o.p), !.q = IF IsUrl /\ Trimmed(o.p) = 0 /\ o.q = 9 THEN 0 ELSE o.q]
+OpStrTrim  == /\ A.live /\ IsStrSub /\ Step("str_trim", <<>>, TRUE, AfterTrim(A), B)
+OpBStrTrim == /\ B.live /\ IsStrSub /\ Step("b_str_trim", <<>>, TRUE, A, AfterTrim(B))
+\* a mutator of the parent followed by its inverse (upcase/downcase, reverse twice, append/prepend/splice and cut again)
+\* leaves the value - and the class - as it was
+RoundTrips == {"case", "reverse", "append", "prepend", "splice"}
+OpStrRound(m) == /\ A.live /\ IsStrSub /\ A.p # 0 /\ Step("str_round", <<m>>, TRUE, A, B)
 
 (* the object protocol *)
 OpDup  == /\ A.live /\ ~B.live /\ Step("dup", <<>>, TRUE, A, A)
@@ -78,7 +94,8 @@ OpCompRev == /\ A.live /\ B.live /\ (Cls \in {"url", "regexp"} => (A.p # 0 /\ B.
 OpCompNull == /\ A.live /\ Step("comp_null", <<>>, 1, A, B)                 \* NULL is below every object
 
 Init == A = Dead /\ B = Dead
-Next == \/ OpClearQ \/ OpBClearQ \/ OpNew \/ OpGetP \/ OpGetQ \/ OpEval \/ OpDup \/ OpDone \/ OpDel \/ OpBDel \/ OpBDone \/ OpBEval \/ OpAdopt
+Next == \/ OpStrTrim \/ OpBStrTrim \/ (\E m \in RoundTrips : OpStrRound(m))
+        \/ OpClearQ \/ OpBClearQ \/ OpNew \/ OpGetP \/ OpGetQ \/ OpEval \/ OpDup \/ OpDone \/ OpDel \/ OpBDel \/ OpBDone \/ OpBEval \/ OpAdopt
         \/ OpComp \/ OpCompRev \/ OpCompNull
         \/ \E t \in T : OpNewFromPtr(t) \/ OpNewFromKey(t) \/ OpNewFromValue(t) \/ OpSetP(t) \/ OpSetQ(t) \/ OpBSetQ(t)
         \/ \E t, u \in T : OpNewFromBoth(t, u)
@@ -86,8 +103,8 @@ Next == \/ OpClearQ \/ OpBClearQ \/ OpNew \/ OpGetP \/ OpGetQ \/ OpEval \/ OpDup
         \/ \E s \in 1 .. 4 : OpMatches(s)
 Spec == Init /\ [][Next]_vars
 
-TypeOK == /\ A \in [live : BOOLEAN, p : T \cup {0}, q : T \cup {0, 3}, r : {0, 1}]
-          /\ B \in [live : BOOLEAN, p : T \cup {0}, q : T \cup {0, 3}, r : {0, 1}]
+TypeOK == /\ A \in [live : BOOLEAN, p : T \cup {0}, q : T \cup {0, 9}, r : {0, 1}]
+          /\ B \in [live : BOOLEAN, p : T \cup {0}, q : T \cup {0, 9}, r : {0, 1}]
           /\ (~A.live => A = Dead) /\ (~B.live => B = Dead)
 \* independence: an action addressed to one slot never changes the other (except dup/adopt, which define it)
 Independent == [][ \/ A' = A \/ B' = B \/ (A' = B /\ B' = Dead) ]_vars
